@@ -5,6 +5,7 @@ import (
 	"fmt"
 	"os"
 	"path/filepath"
+	"regexp"
 	"sort"
 	"strings"
 
@@ -274,16 +275,19 @@ func sameStemCase(i int) *sem.Case {
 	type variant struct {
 		refA, fileA, refB, fileB string
 		args                     []string
+		decoyA, decoyB           string // a file named <text of the reference><resolve extension> with OTHER content: the literal name wins
 	}
 	v := []variant{
-		{"shapes/item.json", "shapes/item.json", "shapes/item.yaml", "shapes/item.yaml", nil},
-		{"shapes/item.yaml", "shapes/item.yaml", "shapes/item.json", "shapes/item.json", nil},
-		{"defs/address.v1", "defs/address.v1.json", "defs/address.v2", "defs/address.v2.json", []string{"--resolve-extension", ".json"}},
-		{"defs/address", "defs/address.json", "defs/address.v1", "defs/address.v1.json", []string{"--resolve-extension", ".json"}},
-		{"defs/part.a.json", "defs/part.a.json", "defs/part.b.json", "defs/part.b.json", nil},
-	}[i%5]
+		{"shapes/item.json", "shapes/item.json", "shapes/item.yaml", "shapes/item.yaml", nil, "", ""},
+		{"shapes/item.yaml", "shapes/item.yaml", "shapes/item.json", "shapes/item.json", nil, "", ""},
+		{"defs/address.v1", "defs/address.v1.json", "defs/address.v2", "defs/address.v2.json", []string{"--resolve-extension", ".json"}, "", ""},
+		{"defs/address", "defs/address.json", "defs/address.v1", "defs/address.v1.json", []string{"--resolve-extension", ".json"}, "", ""},
+		{"defs/part.a.json", "defs/part.a.json", "defs/part.b.json", "defs/part.b.json", nil, "", ""},
+		{"shapes/box.json", "shapes/box.json", "shapes/lid.json", "shapes/lid.json", []string{"--resolve-extension", ".yaml", "--resolve-extension", ".json"}, "shapes/box.json.yaml", "shapes/lid.json.json"},
+		{"defs/part", "defs/part", "defs/cover", "defs/cover", []string{"--resolve-extension", ".json", "--resolve-extension", ".yaml"}, "defs/part.json", "defs/cover.yaml"},
+	}[i%7]
 	root := &sg.Schema{Types: []string{"object"}, Props: []sg.Prop{{Name: "first", S: &sg.Schema{Ref: v.refA, Target: a}}, {Name: "second", S: &sg.Schema{Ref: v.refB, Target: b}}}}
-	if (i/5)%2 == 1 {
+	if (i/7)%2 == 1 {
 		// the other generation order
 		root.Props = []sg.Prop{{Name: "zfirst", S: &sg.Schema{Ref: v.refA, Target: a}}, {Name: "asecond", S: &sg.Schema{Ref: v.refB, Target: b}}}
 	}
@@ -293,8 +297,12 @@ func sameStemCase(i int) *sem.Case {
 		}
 		return jsonx.MarshalIndent(s.ToJSON())
 	}
-	c := &sem.Case{Root: root, Sig: fmt.Sprintf("same-stem/%d", i%10), NoAuto: true, Args: v.args,
+	c := &sem.Case{Root: root, Sig: fmt.Sprintf("same-stem/%d", i%14), NoAuto: true, Args: v.args,
 		Extra: []batch.File{{Path: v.fileA, Data: data(a, v.fileA)}, {Path: v.fileB, Data: data(b, v.fileB)}}}
+	if v.decoyA != "" {
+		// the twins hold the OTHER schema
+		c.Extra = append(c.Extra, batch.File{Path: v.decoyA, Data: data(b, v.decoyA)}, batch.File{Path: v.decoyB, Data: data(a, v.decoyB)})
+	}
 	if v.args != nil {
 		c.RootType = "Root" // --resolve-extension .json trims the extension of root.json as well
 	}
@@ -349,11 +357,14 @@ func c10(ctx *Ctx) (*Outcome, error) {
 	for i := 0; i < ctx.N(16, 32); i++ {
 		cases = append(cases, fileCycleCase(i))
 	}
-	for i := 0; i < ctx.N(10, 20); i++ {
+	for i := 0; i < ctx.N(14, 28); i++ {
 		cases = append(cases, sameStemCase(i))
 	}
 	for i := 0; i < 20; i++ {
 		cases = append(cases, crossPackageCase(i))
+	}
+	for i := 0; i < 12; i++ {
+		cases = append(cases, sameBaseDirCase(i))
 	}
 	for i := 0; i < 8; i++ {
 		cases = append(cases, bothDefsKeywordsCase(i))
@@ -393,7 +404,7 @@ func c10(ctx *Ctx) (*Outcome, error) {
 		// recursion through files: every spelling of the root file must be generated, and generated as code that builds
 		for _, c := range cases {
 			p := sem.ProgramOf(c)
-			if p == nil || !(strings.HasPrefix(c.Sig, "file-cycle/") || strings.HasPrefix(c.Sig, "same-stem/")) || p.Proc.TimedOut {
+			if p == nil || !reC10Stratum.MatchString(c.Sig) || p.Proc.TimedOut {
 				continue
 			}
 			cycleRuns++
@@ -409,7 +420,7 @@ func c10(ctx *Ctx) (*Outcome, error) {
 				_ = osexec("cp", "-r", p.Dir, rp)
 				b, _ := json.MarshalIndent(map[string]any{"property": "C10", "kind": "recursion through files", "argv": p.Args, "inputs": p.Inputs, "cwd": p.Cwd, "problem": problem, "stderr": string(p.Proc.Stderr)}, "", " ")
 				_ = os.WriteFile(filepath.Join(rp, "verif-summary.json"), b, 0o644)
-				gviol = append(gviol, Viol{Replay: rp, Summary: fmt.Sprintf("file cycle team.json <-> member with the root spelled %q (cwd %q): %s", p.Inputs, p.Cwd, problem)})
+				gviol = append(gviol, Viol{Replay: rp, Summary: fmt.Sprintf("reference stratum %s with the root spelled %q (cwd %q, args %v): %s", c.Sig, p.Inputs, p.Cwd, p.Args, problem)})
 			}
 		}
 		// census: all referrers of one definition share one named type (same-file cases)
@@ -462,4 +473,58 @@ func c10(ctx *Ctx) (*Outcome, error) {
 	o.Coverage["reference_forms_refused_while_twin_accepted"] = refusedRef
 	o.Coverage["file_cycle_generator_runs"] = cycleRuns
 	return o, nil
+}
+
+// reC10Stratum: the hand-built reference layouts; each of them is generated and built by the unchanged tool, so a
+// refusal or unbuildable output is a reference form that stopped being transparent.
+var reC10Stratum = regexp.MustCompile(`^(file-cycle|same-stem|same-base-dir|cross-package|both-defs-keywords)/`)
+
+// sameBaseDirCase: schema files with the SAME base name in different directories, one referring to definitions of
+// the others by relative path while holding definitions of the same names itself; also a reference that spells out
+// the referring file's own name (a genuine self reference).
+func sameBaseDirCase(i int) *sem.Case {
+	base := []string{"schema.json", "index.json", "types.yaml"}[i%3]
+	idOwn := &sg.Schema{Types: []string{"integer"}, Min: sg.Fp(1)}
+	idCust := &sg.Schema{Types: []string{"string"}, MinLen: 3}
+	tagVend := &sg.Schema{Types: []string{"string"}, MaxLen: 2}
+	cust := &sg.Schema{Types: []string{"object"}, Defs: []sg.Prop{{Name: "Id", S: idCust}}, Props: []sg.Prop{{Name: "cid", S: &sg.Schema{Ref: "#/$defs/Id", Target: idCust}}}}
+	vend := &sg.Schema{Types: []string{"object"}, Defs: []sg.Prop{{Name: "Tag", S: tagVend}}, Props: []sg.Prop{{Name: "vtag", S: &sg.Schema{Ref: "#/$defs/Tag", Target: tagVend}}}}
+	root := &sg.Schema{Types: []string{"object"}, Defs: []sg.Prop{{Name: "Id", S: idOwn}}}
+	root.Props = []sg.Prop{
+		{Name: "id", S: &sg.Schema{Ref: "#/$defs/Id", Target: idOwn}},
+		{Name: "customer", S: &sg.Schema{Ref: "../customers/" + base + "#/$defs/Id", Target: idCust}},
+		{Name: "tag", S: &sg.Schema{Ref: "../vendors/" + base + "#/$defs/Tag", Target: tagVend}},
+	}
+	if i%2 == 1 {
+		// every referenced name exists in the referring file as well
+		root.Props = root.Props[:2]
+	}
+	if (i/3)%2 == 1 {
+		// ... and by its own file name
+		root.Props = append(root.Props, sg.Prop{Name: "again", S: &sg.Schema{Ref: base + "#/$defs/Id", Target: idOwn}})
+	}
+	data := func(s *sg.Schema) []byte {
+		if strings.HasSuffix(base, ".yaml") {
+			return sg.ToYAML(s.ToJSON(), sg.YAMLBlock)
+		}
+		return jsonx.MarshalIndent(s.ToJSON())
+	}
+	c := &sem.Case{Root: root, RootFile: "orders/" + base, YAML: strings.HasSuffix(base, ".yaml"), Sig: fmt.Sprintf("same-base-dir/%d", i%6), NoAuto: true,
+		Extra: []batch.File{{Path: "customers/" + base, Data: data(cust)}, {Path: "vendors/" + base, Data: data(vend)}}}
+	if (i/6)%2 == 1 {
+		c.Cwd = "orders"
+	}
+	for _, d := range []jsonx.Obj{
+		{{K: "id", V: jsonx.N(5)}, {K: "customer", V: "abc"}, {K: "tag", V: "t"}}, {{K: "customer", V: jsonx.N(7)}}, {{K: "customer", V: "ab"}}, {{K: "customer", V: "abcd"}},
+		{{K: "id", V: "abc"}}, {{K: "id", V: jsonx.N(0)}}, {{K: "tag", V: "toolong"}}, {{K: "tag", V: jsonx.N(1)}}, {{K: "again", V: jsonx.N(3)}}, {{K: "again", V: jsonx.N(0)}}, {{K: "again", V: "abc"}},
+	} {
+		if _, has := d.Get("again"); has && (i/3)%2 == 0 {
+			continue
+		}
+		if _, has := d.Get("tag"); has && i%2 == 1 {
+			continue
+		}
+		c.Docs = append(c.Docs, docgen.Doc{V: d, Class: "deep", Label: "same-base-dir"})
+	}
+	return c
 }
